@@ -687,6 +687,52 @@ Section Vocab.
     end.
 End Vocab.
 
+(** dict documents: the classes a wrapper key is looked up in have distinct type names
+    (the interface refuses two classes with one key; subclasses share their base's namespace) *)
+Definition sub_names_ok (U : universe) : bool :=
+  forallb (fun c => nodup_text (map (cls_name U) (c :: get_subclasses (S (length U)) U c))) (seq 0 (length U)).
+
+Section HVocab.
+  Variable H : hleaf.
+  Variable U : universe.
+  Variable poly : bool.
+
+  Definition is_prim (t : ty) : bool := match t with TPrim _ => true | _ => false end.
+
+  (** one member of a dict document: an explicit null is written only for min_occurs > 0 and is
+      read back as None only where a primitive is declared (a null complex member reads as [],
+      a null max_occurs>1 member is not iterable): those are outside the conformant values *)
+  Definition hfield_conf (rec : ty -> val -> bool) (f : field) (x : val) : bool :=
+    match x with
+    | VNone => if 0 <? f_min f then negb (is_multi f) && rec (f_ty f) VNone else true
+    | _ => if is_multi f
+           then match x with VList xs => forallb (rec (f_ty f)) xs | _ => false end
+           else rec (f_ty f) x
+    end.
+
+  Fixpoint hconf (fuel : nat) (t : ty) (v : val) : bool :=
+    match fuel with
+    | O => false
+    | S k =>
+        match v with
+        | VNone => is_prim t                  (* None inside a list / at top level: only a primitive's null survives *)
+        | VLeaf p => match t with TPrim q => prim_has q p && hl_ok H q p | _ => false end
+        | VList vs => match t with TArr e => forallb (hconf k e) vs | _ => false end
+        | VObj d fs =>
+            match t with
+            | TRef c =>
+                (if poly then is_subclass U d c else Nat.eqb d c)
+                && match flat_fields U d with
+                   | Some ffs => Nat.eqb (length ffs) (length fs)
+                                 && forallb (fun fv => hfield_conf (hconf k) (fst fv) (snd fv)) (combine ffs fs)
+                   | None => false
+                   end
+            | _ => false
+            end
+        end
+    end.
+End HVocab.
+
 (** structural equality of documents, for case files; maps compared as sets of pairs *)
 Fixpoint jv_eqb (a b : jv) : bool :=
   match a, b with
